@@ -292,12 +292,24 @@ type c19Shared struct {
 	bigBlocks   []*cm.RootBlock
 	bigRefs     cm.ReferenceMap
 	bigRenderer *cm.HTMLRenderer
+
+	// one InlineParser value used by every "StreamRewriteShared" thread; its
+	// reference map holds the definitions of all harness documents and is only read
+	inlineParser *cm.InlineParser
 }
 
 func newC19Shared(big bool) *c19Shared {
 	blocks, refs := cm.Parse([]byte(c19SharedDoc))
 	sh := &c19Shared{blocks: blocks, refs: refs,
 		renderer: &cm.HTMLRenderer{ReferenceMap: refs, SoftBreakBehavior: cm.SoftBreakHarden, FilterTag: cm.FilterTagGFM}}
+	all := cm.ReferenceMap{}
+	for _, d := range []string{c19DocA, c19DocB, c19DocC, c19DocD} {
+		_, r := cm.Parse([]byte(d))
+		for k, v := range r {
+			all[k] = v
+		}
+	}
+	sh.inlineParser = &cm.InlineParser{ReferenceMatcher: all}
 	if big {
 		sh.bigBlocks, sh.bigRefs = cm.Parse([]byte(c19BigA))
 		sh.bigRenderer = &cm.HTMLRenderer{ReferenceMap: sh.bigRefs, FilterTag: cm.FilterTagGFM}
@@ -331,6 +343,33 @@ func parseOp(name, doc string) c19Op {
 	}}
 }
 
+// streamRewriteOp parses a document block by block and rewrites the inlines of
+// its blocks through the InlineParser value that all such threads share (the
+// documented streaming pipeline in a server that keeps one parser around).
+func streamRewriteOp(name, doc string) c19Op {
+	return c19Op{name: name, mk: func(sh *c19Shared) (func(), func() string) {
+		var out string
+		return func() {
+				p := cm.NewBlockParser(strings.NewReader(doc))
+				var blocks []*cm.RootBlock
+				for {
+					b, err := p.NextBlock()
+					if err != nil {
+						break
+					}
+					blocks = append(blocks, b)
+				}
+				for _, b := range blocks {
+					sh.inlineParser.Rewrite(b)
+				}
+				h, _ := renderHTML(&cm.HTMLRenderer{ReferenceMap: sh.inlineParser.ReferenceMatcher.(cm.ReferenceMap)}, blocks)
+				out = tree.Dump(blocks, nil, tree.Full) + h
+			}, func() string {
+				return out
+			}
+	}}
+}
+
 func parseBigOp(name, doc string) c19Op {
 	op := parseOp(name, doc)
 	op.big = true
@@ -342,6 +381,8 @@ var c19Ops = []c19Op{
 	parseOp("ParseB", c19DocB),
 	parseOp("ParseC", c19DocC),
 	parseOp("ParseD", c19DocD),
+	streamRewriteOp("StreamRewriteSharedA", c19DocA),
+	streamRewriteOp("StreamRewriteSharedC", c19DocC),
 	{name: "RenderShared", mk: func(sh *c19Shared) (func(), func() string) {
 		var out string
 		return func() { out, _ = renderHTML(sh.renderer, sh.blocks) }, func() string { return out }
